@@ -690,6 +690,12 @@ def _handle_call(node: ast.Call, ctx: Context) -> sympy.Expr | None:
         - object.call
         - Class.call
     """
+    if node.keywords:
+        # Only positional arguments are bound below, silently dropping a keyword
+        # argument would translate a different call
+        msg = "Keyword arguments in calls are not implemented"
+        raise NotImplementedError(msg)
+
     model_args: list[sympy.Expr] = []
     for i in node.args:
         if (expr := _handle_expr(i, ctx)) is None:
